@@ -759,3 +759,11 @@ mod tests {
     }
   }
 }
+
+#[cfg(gb_dynarec_verif)]
+impl VideoState {
+  /// (mode, dots spent in the mode, line)
+  pub fn verif_position(&self) -> (u8, usize, u8) {
+    (self.current_mode, self.current_mode_dots, self.current_line)
+  }
+}
